@@ -13,40 +13,36 @@
 #include "spec/C18_arith.h"
 
 extern uint64_t g_dur_lo, g_dur_hi;
+extern c18_text g_c18_out;
 
-#define DUR_N(t)    ((t)->d_nf)
-#define DUR_MIN(t)  ((t)->d_nf >= 1 ? (t)->d_f[(t)->d_nf - 1] : 0)
-#define DUR_HR(t)   ((t)->d_nf >= 2 ? (t)->d_f[(t)->d_nf - 2] : 0)
-#define DUR_DAY(t)  ((t)->d_nf >= 3 ? (t)->d_f[(t)->d_nf - 3] : 0)
-/* value of the integer fields in microseconds; the bounds keep every product below 2^64 (no wrap-around in the specification) */
-#define DUR_W1(t) (DUR_DAY(t) * C18_US_DAY)
-#define DUR_W2(t) (DUR_HR(t) * C18_US_HOUR)
-#define DUR_W3(t) (DUR_MIN(t) * C18_US_MIN)
-#define DUR_NOWRAP(t) (DUR_DAY(t) <= 213503982ull && DUR_HR(t) <= 5124095576ull && DUR_MIN(t) <= 307445734561ull)
+/* days / hours / minutes = the LAST three integer fields (whatever their number) */
+#define DUR_MIN(t)  ((t)->d_min)
+#define DUR_HR(t)   ((t)->d_hr)
+#define DUR_DAY(t)  ((t)->d_day)
 
 void format_duration(c18_text* ret, uint64_t usecs, int8_t subsecond_precision)
-__CPROVER_requires(__CPROVER_is_fresh(ret, sizeof(c18_text)))
+__CPROVER_requires(ret == &g_c18_out)         /* the returned std::string: a typed global, not a byte-array heap object (keeps the text model field-sensitive) */
 __CPROVER_requires(verif_exc == 0 && g_ratio_calls == 0)
 __CPROVER_requires(g_dur_lo <= usecs && usecs <= g_dur_hi)          /* case split over the magnitude (one obligation group per range; the ranges cover 0 .. 2^64-1) */
-__CPROVER_assigns(verif_exc, __CPROVER_object_whole(ret), g_ratio_calls, g_ratio_num, g_ratio_den, g_ratio_val)
+__CPROVER_assigns(verif_exc, g_c18_out, g_ratio_calls, g_ratio_num, g_ratio_den, g_ratio_val)
 /* 1. never throws */
 __CPROVER_ensures(verif_exc == 0)
 /* 2. the text is in the grammar [d:][h:][m:]s[.f]: at most three integer fields each followed by ':', then the seconds */
 __CPROVER_ensures(verif_exc == 0 ==> (!ret->d_bad && ret->d_sec && !ret->d_pend && ret->d_lead == 0 && ret->d_nf <= 3))
 /* 3. inner fields are zero-padded: every field but the first is exactly two characters (integer part, for the seconds) */
-__CPROVER_ensures(verif_exc == 0 ==> ((ret->d_nf >= 2 ==> ret->d_f2[1]) && (ret->d_nf >= 3 ==> ret->d_f2[2])))
-__CPROVER_ensures(verif_exc == 0 ==> (ret->d_nf >= 1 ==> ret->d_sec_lead + ret->d_sec_digits == 2))
+__CPROVER_ensures(verif_exc == 0 ==> ((ret->d_nf >= 2 ==> ret->d_two1) && (ret->d_nf >= 3 ==> ret->d_two2)))
+__CPROVER_ensures(verif_exc == 0 ==> (ret->d_nf >= 1 ==> ret->d_sec_lead + ret->dbl_digits == 2))
 __CPROVER_ensures(verif_exc == 0 ==> (ret->d_nf == 0 ==> ret->d_sec_lead == 0))
-/* 4. evaluates back to the input: fields * unit + seconds == usecs, the seconds token prints (usecs - W) / 10^6 */
-__CPROVER_ensures(verif_exc == 0 ==> (g_ratio_calls == 1 && ret->d_sec_v == g_ratio_val && g_ratio_den == 1000000))
-__CPROVER_ensures(verif_exc == 0 ==> (DUR_NOWRAP(ret) && DUR_W1(ret) <= usecs && DUR_W2(ret) <= usecs - DUR_W1(ret) &&
-                                      DUR_W3(ret) <= usecs - DUR_W1(ret) - DUR_W2(ret)))
-__CPROVER_ensures(verif_exc == 0 ==> g_ratio_num == usecs - DUR_W1(ret) - DUR_W2(ret) - DUR_W3(ret))
+/* 4. evaluates back to the input: the seconds token prints the double (numerator / 10^6) computed by the one division, and
+ *    days*86400e6 + hours*3600e6 + minutes*60e6 + numerator == usecs exactly (d_total / d_exact: stubs/C18_text.h) */
+__CPROVER_ensures(verif_exc == 0 ==> (g_ratio_calls == 1 && ret->ndbl == 1 && ret->dbl_is_ratio && ret->dbl_den == 1000000))
+__CPROVER_ensures(verif_exc == 0 ==> ret->d_exact)
+__CPROVER_ensures(verif_exc == 0 ==> ret->d_total == usecs)
 /* 5. mixed-radix canonical form: h < 24, m < 60, s < 60, no leading zero field */
 __CPROVER_ensures(verif_exc == 0 ==> ((ret->d_nf >= 2 ==> DUR_MIN(ret) < 60) && (ret->d_nf >= 3 ==> DUR_HR(ret) < 24)))
-__CPROVER_ensures(verif_exc == 0 ==> (g_ratio_num < 60000000 && (ret->d_nf >= 1 ==> ret->d_f[0] != 0)))
+__CPROVER_ensures(verif_exc == 0 ==> (ret->dbl_num < 60000000 && (ret->d_nf >= 1 ==> ret->d_f0 != 0)))
 /* 6. printed precision: the requested one; a negative request selects a default in 0..6 */
-__CPROVER_ensures(verif_exc == 0 ==> (subsecond_precision >= 0 ? ret->d_sec_prec == subsecond_precision
-                                                               : (ret->d_sec_prec >= 0 && ret->d_sec_prec <= 6)))
+__CPROVER_ensures(verif_exc == 0 ==> (subsecond_precision >= 0 ? ret->dbl_prec == subsecond_precision
+                                                               : (ret->dbl_prec >= 0 && ret->dbl_prec <= 6)))
 ;
 #endif
